@@ -375,7 +375,7 @@ def run(P, R, tier):
             for x in T.walk(f["body"]):
                 if x[0] == "Call" and T.is_node(x[3]):
                     root, steps = T.access_path(x[3])
-                    nm = T.callee_q(x).split("::")[-1]
+                    nm = T.callee_name(x)
                     if steps and steps[-1] == ("f", fq) and nm in ITER:
                         # `m.find(k) != m.end()` is a membership test, not an iteration
                         if nm == "end":
